@@ -25,6 +25,13 @@ def render(d, h):
         cnt[k] = cnt.get(k, 0) + 1
     lines.append("/-- where the package consults the context: (function, kind, occurrences) with kind one of\n    stop-call | ctx.Err | ctx.Done | AfterFunc | CommandContext | SetReadDeadline -/")
     lines.append("def ctxUses : List (String × String × Nat) := " + h.llist("(%s, %s, %d)" % (L(f), L(k), cnt[(f, k)]) for f, k in order) + "\n")
+    cap = d.get("c31capture") or {}
+    lines.append("/-- calls of fillExpandConfig: (caller, inside an if/loop/closure?, argument: param = a context\n    parameter of the caller | field:<runner field> | other:…) -/")
+    lines.append("def fillCalls : List (String × Bool × String) := " + h.llist(
+        "(%s, %s, %s)" % (L(x["func"]), "true" if x["conditional"] else "false", L(x["arg"])) for x in cap.get("fill_calls") or []) + "\n")
+    lines.append("/-- long-lived callbacks built by a constructor with a context parameter: (constructor, callback,\n    where its body takes the context from: param | field:ectx | both) -/")
+    lines.append("def callbackCtx : List (String × String × String) := " + h.llist(
+        "(%s, %s, %s)" % (L(x["func"]), L(x["name"]), L(x["source"])) for x in (cap.get("callbacks") or []) if x["source"] != "none") + "\n")
     lines.append("def skippedFiles : List String := " + h.llist(L(x) for x in c.get("skipped_files") or []) + "\n")
     lines.append("end ShVerif.Gen.C31")
     h.put("C31", "\n".join(lines) + "\n")
